@@ -441,6 +441,9 @@ PROPS['C13']['more_proof_modules'] = list(PROPS['C13'].get('more_proof_modules',
 PROPS['C13']['required_theorems'] += ['conform7_31_is_diag', 'conform7_31_none', 'pipeline_94_to_2020_31', 'pipeline_2020_to_94_31']
 PROPS['C13']['tie_functions'] = list(PROPS['C13']['tie_functions']) + ['Transform.transform_mga94_to_mga2020_31', 'Transform.transform_mga2020_to_mga94_31', 'Transform.conform7_31']
 PROPS['C06']['tie_functions'] = list(PROPS['C06']['tie_functions']) + ['Transform.conform7_31']
+PROPS['C02']['more_proof_modules'] = list(PROPS['C02'].get('more_proof_modules', [])) + ['GeodeVerif.Proofs.C02c']
+PROPS['C02']['required_theorems'] += ['beta_sphere', 'sigma_sphere', 'newtonMap_sphere', 'sphere_loop_exits_first_pass', 'grid2geo_sphere',
+                                      'sphere_inverse_of_forward', 'sphere_round_trip']
 PROPS['C04']['more_proof_modules'] = list(PROPS['C04'].get('more_proof_modules', [])) + ['GeodeVerif.Proofs.C04b']
 PROPS['C04']['required_theorems'] += ['sphere_loop', 'vincdir_sphere', 'vincdir_sphere_end_point']
 PROPS['C05']['more_proof_modules'] = list(PROPS['C05'].get('more_proof_modules', [])) + ['GeodeVerif.Proofs.C05b']
